@@ -3,8 +3,11 @@
 package verifx
 
 import (
+	"crypto/sha1"
 	"encoding/json"
 	"fmt"
+	"os"
+	"path/filepath"
 	"sort"
 	"strings"
 
@@ -23,6 +26,7 @@ type c05Case struct {
 	Parts int    `json:"parts"`
 	// Replay: a recorded operator sequence (labels) to re-execute instead of searching
 	Trace []string `json:"trace,omitempty"`
+	CLI   bool     `json:"cli,omitempty"` // whitespace forms of the document read from a file by the command line tool
 }
 
 type c05State struct {
@@ -201,12 +205,41 @@ func c05Successors(s c05State) []c05Succ {
 	var out []c05Succ
 	add := func(label string, dom any) { out = append(out, c05Succ{label, c05State{dom, s.indent}}) }
 	ctx := c05Ctx(s.dom)
+	extCtx := false // the context is a reference to a file: no further context rewrites (they would replace it)
+	if d, ok := s.dom.(*OMap); ok {
+		if cv, ok := d.Get("@context"); ok {
+			_, extCtx = cv.(string)
+		}
+	}
 	has := func(k string) bool {
+		if extCtx {
+			return true
+		}
 		if ctx == nil {
 			return false
 		}
 		_, ok := ctx.Get(k)
 		return ok
+	}
+	// 0 the inline context moved to a file and referenced by its path (JSON-LD ignores @base in such a context)
+	if d, ok := s.dom.(*OMap); ok && ctx != nil && len(ctx.Keys) > 0 {
+		if _, hasBase := ctx.Get("@base"); !hasBase {
+			text := OEmit(OM("@context", OClone(ctx)), "")
+			h := sha1.Sum([]byte(text))
+			dir := os.Getenv("VERIF_WORK")
+			if dir == "" {
+				dir = os.TempDir()
+			}
+			path := filepath.Join(dir, fmt.Sprintf("c05ctx-%x.jsonld", h[:6]))
+			if _, err := os.Stat(path); err != nil {
+				tmp := fmt.Sprintf("%s.%d", path, os.Getpid())
+				os.WriteFile(tmp, []byte(text), 0o644)
+				os.Rename(tmp, path)
+			}
+			dd := OClone(d).(*OMap)
+			dd.Set("@context", path)
+			add("context moved to a file and referenced", dd)
+		}
 	}
 	// 1 prefix compaction
 	if !has("ex") && !has("@vocab") {
@@ -337,7 +370,7 @@ func c05Successors(s c05State) []c05Succ {
 	switch d := s.dom.(type) {
 	case *OMap:
 		if g, ok := d.Get("@graph"); ok {
-			if ctx == nil {
+			if ctx == nil && !extCtx {
 				add("unwrap @graph to a top-level array", OClone(g))
 			}
 			if a, ok := g.([]any); ok && len(a) == 1 {
@@ -353,8 +386,8 @@ func c05Successors(s c05State) []c05Succ {
 			if a, ok := g.([]any); ok && len(a) == 1 {
 				if one, ok := a[0].(*OMap); ok {
 					c := OClone(one).(*OMap)
-					if ctx != nil {
-						nc := &OMap{Keys: []string{"@context"}, Vals: []any{OClone(ctx)}}
+					if cv, hasCtx := d.Get("@context"); hasCtx {
+						nc := &OMap{Keys: []string{"@context"}, Vals: []any{OClone(cv)}}
 						nc.Keys = append(nc.Keys, c.Keys...)
 						nc.Vals = append(nc.Vals, c.Vals...)
 						c = nc
@@ -458,7 +491,7 @@ func c05Successors(s c05State) []c05Succ {
 		}
 	}
 	// 13 fully expanded form (only without a context)
-	if ctx == nil {
+	if ctx == nil && !extCtx {
 		d := OClone(s.dom)
 		var expandNode func(m *OMap)
 		expandVal := func(v any) any { return v }
@@ -626,8 +659,8 @@ func c05NQuads(text string) (string, error) {
 func init() {
 	Register(Meta{
 		ID: "C05", Level: "model_checking", LongCases: true,
-		Rule:        "state = JSON-LD document text; initial states = canonical flattened serialisation of base graphs (mixed scalars/links/types, path collision graph, lexical document with source maps, truth table with decoys, a two-node tree that embeds into a single top-level node); transitions = 15 surface rewrites, every applicable (operator, position): prefix context, @vocab context, @base-relative ids, embed a referenced node at one reference, hoist an embedded node, @graph wrapper/top-level array/single node forms, \"@graph\": [node] <-> \"@graph\": node, rotate/reverse node order, reverse key order, value<->one-element array per property, @type string<->array, duplicate a value, duplicate/split a node object, fully expanded form, indentation. Depth-bounded search deduplicated on the document text; every transition is first validated to preserve the RDF dataset (sorted N-Quads by json-gold); every state is evaluated with a 7-validation observer profile (count, set, nested, inverse path, message placeholders, path expression, @type) and its (conforms, {(severity, validation, focus node, message)}) must equal the initial state's.",
-		Assumptions: []string{"typed/language-tagged literals and remote contexts are outside the rewrite alphabet", "blank nodes do not occur in the base graphs"},
+		Rule:        "state = JSON-LD document text; initial states = canonical flattened serialisation of base graphs (mixed scalars/links/types, path collision graph, lexical document with source maps, truth table with decoys, a two-node tree that embeds into a single top-level node); transitions = 16 surface rewrites, every applicable (operator, position): prefix context, the context moved to a file and referenced by path, @vocab context, @base-relative ids, embed a referenced node at one reference, hoist an embedded node, @graph wrapper/top-level array/single node forms, \"@graph\": [node] <-> \"@graph\": node, rotate/reverse node order, reverse key order, value<->one-element array per property, @type string<->array, duplicate a value, duplicate/split a node object, fully expanded form, indentation. Whitespace forms that only matter where the text is first read (one line of 70 000 bytes / 1.1 MiB, CRLF, tabs, leading/trailing blank runs) go through the built command line tool for 3 graphs. Depth-bounded search deduplicated on the document text; every transition is first validated to preserve the RDF dataset (sorted N-Quads by json-gold); every state is evaluated with a 7-validation observer profile (count, set, nested, inverse path, message placeholders, path expression, @type) and its (conforms, {(severity, validation, focus node, message)}) must equal the initial state's.",
+		Assumptions: []string{"typed/language-tagged literals and contexts fetched over the network are outside the rewrite alphabet (a context referenced as a local file is in it)", "blank nodes do not occur in the base graphs"},
 	}, c05Gen, c05Run)
 }
 
@@ -639,6 +672,9 @@ func c05Gen(tier string, emit func(c05Case)) {
 	plan := []gd{{"mixed", 2}, {"paths", 2}, {"lexical", 2}, {"tt2", 2}, {"tree", 3}}
 	if tier == "thorough" {
 		plan = []gd{{"mixed", 3}, {"paths", 3}, {"lexical", 2}, {"tt2", 2}, {"tree", 4}}
+	}
+	for _, g := range []string{"mixed", "lexical", "tree"} {
+		emit(c05Case{Graph: g, CLI: true})
 	}
 	for _, p := range plan {
 		parts := 16
@@ -692,6 +728,52 @@ func c05Verdict(c *Ctx, text string) (string, CallRes) {
 	return rep.Verdict(), r
 }
 
+// c05RunCLI: whitespace is a surface form too, and the command line tool is where a document is first read as text:
+// the same graph indented, on one line, on one line of more than 64 KiB / 1 MiB (blanks after the first bracket), with
+// CRLF line ends, with tabs, with and without a final newline must give the verdict the library gives.
+func c05RunCLI(c *Ctx, cs c05Case, init c05State) {
+	if os.Getenv("VERIF_ACV") == "" {
+		panic("harness: VERIF_ACV not set (C05 cli forms need the built command line tool)")
+	}
+	dir, err := os.MkdirTemp(os.Getenv("VERIF_WORK"), "c05cli")
+	if err != nil {
+		panic("harness: " + err.Error())
+	}
+	defer os.RemoveAll(dir)
+	compact := init.text()
+	want, r0 := c05Verdict(c, compact)
+	if r0.Err != nil || r0.Panic != nil {
+		c.Violate("C05 base document rejected: "+firstLine(r0.ErrString()), compact, nil)
+		return
+	}
+	pad := func(n int) string { return compact[:1] + strings.Repeat(" ", n) + compact[1:] }
+	indented := c05State{dom: init.dom, indent: "  "}.text()
+	forms := []struct{ name, text string }{
+		{"one line", compact}, {"one line + newline", compact + "\n"}, {"indented", indented}, {"indented, tabs", c05State{dom: init.dom, indent: "\t"}.text()},
+		{"indented, CRLF", strings.ReplaceAll(indented, "\n", "\r\n")}, {"one line of 70 000 bytes", pad(70000)}, {"one line of 1.1 MiB", pad(1100000)},
+		{"4097 leading newlines", strings.Repeat("\n", 4097) + compact}, {"trailing blanks and newlines", compact + strings.Repeat(" \n", 3000)},
+	}
+	os.WriteFile(filepath.Join(dir, "p.yaml"), []byte(c05Profile()), 0o644)
+	for i, f := range forms {
+		name := fmt.Sprintf("d%d.jsonld", i)
+		os.WriteFile(filepath.Join(dir, name), []byte(f.text), 0o644)
+		r := c18Exec(dir, "validate", "p.yaml", name)
+		c.Eval(1)
+		got := ""
+		if rep, err := ParseReport(strings.TrimSpace(r.stdout)); err == nil {
+			got = rep.Verdict()
+		}
+		if r.exit != 0 || got != want {
+			c.Violate("C05 the command line tool gives another verdict for a whitespace form of the document", fmt.Sprintf("graph %s, form %q (%d bytes): exit=%d\nlibrary: %s\ncli:     %s\nstdout starts: %s", cs.Graph, f.name, len(f.text), r.exit, tailStr(want, 600), tailStr(got, 600), tailStr(r.stdout, 300)), nil)
+		}
+		c.Outcome("cli form " + f.name)
+	}
+	c.Count("states", int64(len(forms)))
+	c.Count("transitions", int64(len(forms)))
+	c.Count("traces_validated_against_impl", int64(len(forms)))
+	c.Nontrivial("cli/" + cs.Graph)
+}
+
 func c05Run(c *Ctx, cs c05Case) {
 	if c05Query == nil {
 		q, r := Compile(c05Profile())
@@ -703,6 +785,10 @@ func c05Run(c *Ctx, cs c05Case) {
 	g := c05BaseGraph(cs.Graph)
 	init := c05State{dom: OFromGraph(g), indent: ""}
 	baseText := init.text()
+	if cs.CLI {
+		c05RunCLI(c, cs, init)
+		return
+	}
 	baseNQ, err := c05NQuads(baseText)
 	if err != nil {
 		panic("harness: base graph is not valid JSON-LD: " + err.Error())
